@@ -41,6 +41,12 @@ def sources(body, op, depth=0, seen=None):
             out.add(("via", body.callee_q(rv["t"])))
         return out
     if 1 <= base <= body.nargs:
+        if base == 1 and place_proj(rp) and body._upvars and body.local_name(1) is None:
+            # a captured variable of a closure: name it as the enclosing function does
+            up = _upvar_name(body, rp)
+            if up is not None:
+                out.add(up)
+                return out
         out.add(("param", body.local_name(base)))
         return out
     ds = body.defs().get(base, [])
@@ -96,6 +102,37 @@ def sources(body, op, depth=0, seen=None):
         else:
             out.add(("?",))
     return out
+
+
+def _upvar_name(body, rp):
+    """('param', n) when the place reads the captured variable `n` and `n` is a parameter of the function the closure
+    is written in; ('upvar', n) for a captured local."""
+    pj = [tuple(e[:2]) for e in place_proj(rp)]
+    best = None
+    for n, up in body._upvars.items():
+        if up["l"] != 1:
+            continue
+        uj = [tuple(e[:2]) for e in place_proj(up)]
+        m = min(len(uj), len(pj))
+        if m and uj[:m] == pj[:m] and (best is None or len(uj) > best[1]):
+            best = (n, len(uj))
+    if best is None:
+        return None
+    n = best[0]
+    parent = None
+    if body.facts is not None:
+        h = body.facts.heads.get(body.path, {})
+        if h.get("parent") and body.facts.has(h["parent"]):
+            parent = body.facts.body(h["parent"])
+    while parent is not None:
+        if parent.arg_local(n) is not None:
+            return ("param", n)
+        h = body.facts.heads.get(parent.path, {})
+        if parent._upvars.get(n) is not None and h.get("parent") and body.facts.has(h["parent"]):
+            parent = body.facts.body(h["parent"])
+            continue
+        break
+    return ("upvar", n)
 
 
 def _attr_of_field(table, field):
